@@ -92,6 +92,15 @@ def step (s : S) : List String → S × String
       | .ok st' => (⟨st'⟩, "ok " ++ joinOr ";" ((l.map (fun x => acctRec fn x.1 a (dec b) x.2)).foldl (fun acc r => insertDup r acc) []))
       | .error _ => (s, "err")
     | _, _ => (s, "bad-op")
+  -- token.TxAllowedIndustrialBalanceTransfer: the signed method on top of allowedIndTransfer
+  | ["tait", a, b, assets] =>
+    match parseAssets assets with
+    | some l =>
+      if a = b ∨ l.any (fun x => x.2 ≤ 0) then (s, "err") else
+      match apply s.st .allowedIndTransfer a b "" 0 l with
+      | .ok st' => (⟨st'⟩, "ok " ++ joinOr ";" ((l.map (fun x => acctRec .allowedIndTransfer x.1 a b x.2)).foldl (fun acc r => insertDup r acc) []))
+      | .error _ => (s, "err")
+    | none => (s, "bad-op")
   | ["dump"] => (s, s!"p:{dumpOf s.st.prim};i:{dumpOf s.st.inv}")
   | _ => (s, "bad-op")
 
@@ -135,6 +144,14 @@ def jstep (j : J) (ws : List String) : J × String :=
                   pending := j.pending ++ [(tokOf (shape fn).tok (dec tok), delta (shape fn).prim n)] }, "pass")
       else (j, s!"violation reply_shape {obs}")
     | _, _ => (j, "bad-op")
+  | ["tait", _, _, assets] =>
+    match parseAssets assets with
+    | some l =>
+      if obs = "err" then ({ j with calls := j.calls + 1 }, "pass")
+      else if obs.startsWith "ok" then
+        ({ j with calls := j.calls + 1, oks := j.oks + 1, pending := j.pending ++ l.map (fun x => (x.1, (0 : Int))) }, "pass")
+      else (j, s!"violation reply_shape {obs}")
+    | none => (j, "bad-op")
   | ["apim", f, _, _, assets] =>
     match fnOf f, parseAssets assets with
     | some fn, some l =>
